@@ -75,7 +75,7 @@ Block(s) == [s EXCEPT !.blk = TRUE]
 (* the message is complete *)
 AfterFinish(s, c) ==
     IF c.mode = "client" THEN [s EXCEPT !.ph = "closed", !.closed = TRUE, !.blk = TRUE]
-    ELSE IF c.respond = "async" THEN [s EXCEPT !.ph = "wait", !.blk = TRUE]
+    ELSE IF c.respond = "async" THEN [s EXCEPT !.ph = "wait"]
     ELSE IF s.persist THEN [s EXCEPT !.ph = "head", !.out = Append(@, 200)]
     ELSE [s EXCEPT !.ph = "closed", !.closed = TRUE, !.blk = TRUE, !.out = Append(@, 200)]
 
